@@ -24,7 +24,8 @@ CLAIMS = {
     "C03": ("Theorems over the Ideal model (handles = references with DERIVED counts, gc of unreferenced receiving ends): invariant for every reachable state, "
             "'disconnected' iff queue empty and no sender handle alive and no sender in transit in a live queue, idle channel is 'empty', pending messages first; "
             "carried to the unix back end by unix_refines_ideal (for every program both models give the same outcomes); random histories compared with a reference "
-            "count kept by the generator, with both models and with the descriptor ledger",
+            "count kept by the generator, with both models and with the descriptor ledger; at the level of the whole API (Api.v: regions, sets, servers) "
+            "C03_api_disconnected_iff and C03_api_receiver_live; blocked / timed / polling receives racing the final drop, and channels born in a one-shot server, under a watchdog",
             "refinement proof (Unix refines Ideal) + invariant proofs in Coq; program-level correspondence (prog driver)"),
     "C04": ("Theorems: positional round-trip of values with endpoints/regions at arbitrary depth through the bincode model and the attachment side tables (C04_positions), "
             "descriptor order on the wire (C04_wire_order), i-th right becomes i-th handle of the same channel (C04_install_positions), backlog delivered oldest first; "
@@ -32,7 +33,9 @@ CLAIMS = {
             "Coq proofs (codec round-trip, wire order, install positions) + chain/codec correspondence"),
     "C11": ("Theorems over the Unix model for EVERY operation sequence: open descriptors = descriptors owned by live objects (permutation, no duplicates), no close of a "
             "descriptor that is not open, no double close, nothing left once all handles are gone; per-operation descriptor counts and the full descriptor ledger of random "
-            "programs equal the model's; resource scenarios (failing connects, servers, regions, sets, undecoded messages, bad TMPDIR) repeated; close-on-exec and what a "
+            "programs equal the model's; for the WHOLE API (channels, regions, receiver sets, one-shot servers, undecodable messages) at reference level: held references = "
+            "references backing live handles after every program, nothing held once all handles are gone (C11_api_held_exact, C11_api_quiescent over Api.v); "
+            "resource scenarios (failing and over-long connects, clients that never send, servers, regions, sets, undecoded messages, bad TMPDIR) repeated; close-on-exec and what a "
             "spawned child inherits",
             "ownership-invariant proof in Coq + descriptor-ledger correspondence + resource scenario oracle"),
     "C14": ("Theorems over Tls (serialiser programs with nested and failing sends, any depth): thread-local tables unchanged after ANY send, a message carries exactly "
@@ -44,7 +47,9 @@ CLAIMS = {
             "types and compared with the model; release of every attachment and descriptor counts checked; undecoded drops",
             "Coq proofs (totality, conservation) + differential decoding against the model (codec driver)"),
     "C19": ("Theorem unix_refines_ideal: for EVERY program the Unix model (OS transport) and the Ideal model (= in-process transport: handles are references) return the "
-            "same outcome list; the same seeded programs run on the default, memfd and in-process builds must agree with each other and with both models",
+            "same outcome list; Api.v models the whole single-process API (regions, receiver sets, one-shot servers, undecodable messages): its invariant holds after every "
+            "program (C19_api_invariant), Ideal is its restriction to channel programs (C19_api_conservative) and hence Unix = Api on those (C19_unix_is_api); the same seeded "
+            "programs (channel programs and whole-API programs) run on the default, memfd and in-process builds must agree with each other and with the models",
             "simulation proof in Coq + three-build differential run (prog driver)"),
     "C05": ("Theorems over Shm (objects with a size fixed by ftruncate, regions = descriptor + mapping, receivers map the fstat size, empty region = None / usize::MAX at the ipc level): "
             "from_bytes / from_byte read back exactly, clones read the same, a received region has the same length and bytes for EVERY length incl. 0 and non-page-multiples, "
@@ -54,7 +59,8 @@ CLAIMS = {
     "C06": ("Theorems over the RSet LTS (edge-triggered epoll ready list, concurrent senders, arbitrary schedule): no lost wake-up, select does not block while something is pending, "
             "per-member events = its messages in send order (queued before add included) then exactly one closure when disconnected and drained, distinct ids, EINTR is a no-op; "
             "rset driver with up to 64 members (> batch capacity), adds before/during/after traffic, EINTR injection: per-member oracle, edge-trigger discipline read off the system "
-            "calls, sequential scenarios replayed on the LTS",
+            "calls, sequential scenarios replayed on the LTS; the public IpcReceiverSet inside whole-API programs: per member every queued message once, in order, then the closure iff no "
+            "sender reference exists (C06_api_member_events over Api.v); multi-member bursts, reversed readiness order and paced races at both set levels and on both builds",
             "invariant proof over all interleavings in Coq + discipline conformance and event-order correspondence (rset driver)"),
     "C07": ("Theorems over the Router LTS for every schedule: calls of a handler ++ queue = sent (exactly once, in order, pre-queued included), no other handler, dropped at most once and "
             "never called afterwards, wake-ups pair 1:1 with control messages; router driver with up to 32 routes from up to 8 threads, callback and crossbeam routes, per-route log oracle, "
@@ -62,7 +68,8 @@ CLAIMS = {
             "invariant proof over all interleavings in Coq + per-route log correspondence (router driver)"),
     "C08": ("Theorems over the Server LTS for every order of {create, connect, send, client exit, accept, read}: delivered ++ queued = sent per connection, accept returns the first message "
             "of the oldest connection and is enabled as soon as it exists, names distinct and present exactly while listening, nothing left after accept or unused drop; server driver with "
-            "thread / forked / spawned clients, 1..20 messages, 200 servers at once, file-system and descriptor accounting",
+            "thread / forked / spawned clients, 1..20 messages, 200 servers at once, clients that connect and never send, file-system and descriptor accounting; at whole-API level "
+            "C08_api_accept_first (accept yields the head of the rendezvous queue and the receiving end of that very channel)",
             "invariant proof in Coq + scenario correspondence and fs/fd ledger (server driver)"),
     "C10": ("Theorems over Timed (UnixCmsg::recv's three modes with the O_NONBLOCK flag explicit): the flag is cleared again after ANY sequence of calls with any results, outcome table of "
             "try_recv, it never blocks, 'empty' from a timed receive only after poll reported a full timeout of floor(d / 1 ms), early return on arrival or hang-up; timed driver with "
